@@ -19,8 +19,11 @@ VARIABLE c
 gvars == <<vars, c>>
 
 \* ----------------------------------------------------------- seeded choice
-RECURSIVE Rnd(_)
-Rnd(k) == IF k = 0 THEN (Seed * 7919 + 17) % 65537 ELSE (Rnd(k - 1) * 75 + 74) % 65537
+\* a hash of (Seed, k), k < 70000, every intermediate below 2^31
+Rnd(k) ==
+  LET h1 == ((k + 1) * 30011 + (Seed % 65537) * 7919) % 65537
+      h2 == (h1 * 75 + 74) % 65537
+  IN ((h2 % 32768) * (h2 \div 2 + 1) + h1) % 65537
 RandLen(k, max) == 1 + (Rnd(k) % max)
 
 \* ------------------------------------------------------------- descriptors
